@@ -11,10 +11,11 @@ from vlib.core import NCPU
 from props import c08_asm as A
 from props import c08 as C08
 
-PASS = {"remove_sequential_jumps": 1, "remove_redundant_moves": 2, "remove_redundant_ops": 3, "dce": 4, "simplify_cfg": 5}
+PASS = {"remove_sequential_jumps": 1, "remove_redundant_moves": 2, "remove_redundant_ops": 3, "dce": 4, "simplify_cfg": 5,
+        "constant_propagate": 6}   # 6: judged by the proved validator (judge_cp), not by a model of the pass
 QUICK_STD = ["ops", "flags", "assert"]
 QUICK_E2E = 3
-HEADER = ("From SwayV Require Import Base.Util Asm.Model C08.Spec C08.Model C07.Model C07.Spec C07.Judge.\n"
+HEADER = ("From SwayV Require Import Base.Util Asm.Model C08.Spec C08.Model C07.Model C07.Spec C07.CpModel C07.Judge.\n"
           "Local Open Scope N_scope.\n")
 
 
@@ -31,6 +32,47 @@ def gen_effects_pkg(rng, base, name, nfn):
             tests += "#[test]\nfn t_g%d_%d_%d() {\n    log(g%d(%d, %d));\n}\n" % (k, a, b, k, a, b)
     tests += ("#[test(should_revert)]\nfn t_rev() {\n    let x = g0(1, 2);\n    if x > 0 { revert(%d); }\n}\n" % rng.randint(1, 1000))
     return sway.write_pkg(base, name, {"lib.sw": src + tests})
+
+
+MAXU = 2**64 - 1
+ALU_CASES = {
+    "add": ([0, 1, 2, MAXU], [0, 1, MAXU]), "sub": ([0, 1, 2, MAXU], [0, 1, 2, MAXU]), "mul": ([0, 1, 2, MAXU], [0, 1, 2, MAXU]),
+    "div": ([0, 1, 7, MAXU], [0, 1, 2]), "mod": ([0, 1, 7, MAXU], [0, 1, 2]), "exp": ([0, 1, 2, MAXU], [0, 1, 2, 63, 64]),
+    "and": ([0, 1, 255, MAXU], [0, 1, MAXU]), "or": ([0, 1, 255, MAXU], [0, 1, MAXU]), "xor": ([0, 1, 255, MAXU], [0, 1, MAXU]),
+    "sll": ([0, 1, 255, MAXU], [0, 1, 63, 64, 65, 255]), "srl": ([1, 255, MAXU], [0, 1, 63, 64, 65, 255]),
+    "eq": ([0, 1, MAXU], [0, 1, MAXU]), "lt": ([0, 1, MAXU], [0, 1, MAXU]), "gt": ([0, 1, MAXU], [0, 1, MAXU]),
+    "mlog": ([0, 1, 8, MAXU], [0, 1, 2]), "mroo": ([0, 1, 8, MAXU], [0, 1, 2]),
+}
+
+
+def gen_alu_pkg(base, name, shapes=("cc", "oc", "co")):
+    """one test per (ALU op, left, right, shape): the op is executed in an asm block (opaque to the IR
+    optimiser, so the asm-level constant propagation sees it) with boundary operands; shape cc = both
+    operands constants known to the asm optimiser (u64::MAX is made with `not` of 0), oc / co = left / right
+    operand comes out of a non-inlined identity function (unknown). The result is logged; traps end the test."""
+    src = "library;\n\n#[inline(never)]\nfn opq(x: u64) -> u64 {\n    x\n}\n\n"
+    n = 0
+    def operand(regname, v, opaque):
+        # returns (let-prefix, asm init, asm pre-instructions)
+        if opaque:
+            return "    let %s_v = opq(%s);\n" % (regname, "u64::max()" if v == MAXU else str(v)), "%s: %s_v" % (regname, regname), ""
+        if v == MAXU:
+            return "", "%s" % regname, "        not %s zero;\n" % regname
+        return "", "%s: %d" % (regname, v), ""
+    for op, (ls, rs) in ALU_CASES.items():
+        for l in ls:
+            for r in rs:
+                for sh in shapes:
+                    pl, il, xl = operand("a", l, sh[0] == "o")
+                    pr, ir, xr = operand("b", r, sh[1] == "o")
+                    src += ("#[test]\nfn t_%s_%s_%s_%s() {\n%s%s    let res = asm(%s, %s, r) {\n%s%s        %s r a b;\n        r: u64\n    };\n    log(res);\n}\n\n"
+                            % (op, "m" if l == MAXU else l, "m" if r == MAXU else r, sh, pl, pr, il, ir, xl, xr, op))
+                    n += 1
+    for v in (0, 1, 255, MAXU):
+        for sh in ("c", "o"):
+            pl, il, xl = operand("a", v, sh == "o")
+            src += "#[test]\nfn t_not_%s_%s() {\n%s    let res = asm(%s, r) {\n%s        not r a;\n        r: u64\n    };\n    log(res);\n}\n\n" % ("m" if v == MAXU else v, sh, pl, il, xl)
+    return sway.write_pkg(base, name, {"lib.sw": src})
 
 
 def pairs_from_dump(path, max_ops=None):
@@ -98,6 +140,9 @@ def run(ctx):
     for d in pkgs:
         if kinds_of.get(d) == "corpus" and (os.path.basename(d).startswith("rel_") or os.path.basename(d) == "zero_div_pow"):
             rel.add(d)
+    # boundary ALU shapes at asm level, debug and release (constant_propagate folds/identities/immediates)
+    d = gen_alu_pkg(base, "alu_dbg"); pkgs.append(d); kinds_of[d] = "generated-alu"
+    d = gen_alu_pkg(base, "alu_rel"); pkgs.append(d); kinds_of[d] = "generated-alu-release"; rel.add(d)
     for k in range(1 if ctx.quick else 5):
         d = gen_effects_pkg(ctx.rng, base, "fx_%d" % k, 4 if ctx.quick else 10); pkgs.append(d); kinds_of[d] = "generated-effects"
         d, _ = C08.gen_spill_pkg(ctx.rng, base, "sp_%d" % k, 2 if ctx.quick else 5); pkgs.append(d); kinds_of[d] = "generated-spill"
@@ -181,12 +226,15 @@ def run(ctx):
     for p, e, x, d in cases:
         itn = A.Interner()
         try:
-            texts.append("Eval vm_compute in (judge_pass %d %s %s)." % (PASS[p], A.ops_term(e["ops"], itn), A.ops_term(x["ops"], itn)))
+            if PASS[p] == 6:
+                texts.append("Eval vm_compute in (judge_cp %s %s)." % (A.ops_term(e["ops"], itn), A.ops_term(x["ops"], itn)))
+            else:
+                texts.append("Eval vm_compute in (judge_pass %d %s %s)." % (PASS[p], A.ops_term(e["ops"], itn), A.ops_term(x["ops"], itn)))
         except ValueError as err:
             texts.append(None)
             ctx.violation("dump-parse", {"pkg": d, "error": str(err)}, "dump could not be translated: %s" % err, no_input=True)
     work = sorted([(len(t), i, t) for i, t in enumerate(texts) if t], reverse=True)
-    hist, side_hist = {}, {}
+    hist, side_hist, cp_hist = {}, {}, {}
     if work:
         nsh = min(NCPU, len(work))
         shards, loads = [[] for _ in range(nsh)], [0] * nsh
@@ -204,6 +252,33 @@ def run(ctx):
                 ctx.violation("model-eval-count", {"expected": len(sh), "got": len(rs)}, "judge output count mismatch", no_input=True)
                 return
             for (i, _), r in zip(sh, rs):
+                if PASS[cases[i][0]] == 6:
+                    p, e, x, d = cases[i]
+                    fn = e.get("function") or next((o["t"] for o in e["ops"]["ops"] if o["kind"]["k"] == "label"), "?")
+                    bt, at = [o["t"] for o in e["ops"]["ops"]], [o["t"] for o in x["ops"]["ops"]]
+                    cp_hist["functions"] = cp_hist.get("functions", 0) + 1
+                    cp_hist["rewrites"] = cp_hist.get("rewrites", 0) + sum(1 for u, v in zip(bt, at) if u != v)
+                    for where in [int(w) for w in r]:
+                        b_op = bt[where] if where < len(bt) else "?"; a_op = at[where] if where < len(at) else "?"
+                        mn = b_op.split()[0] if b_op.split() else ""
+                        if mn == "jnzi" and a_op == "noop":
+                            cls = "jnz-to-noop-flags-unverified"     # the NOOP clears $of/$err, the JNZ did not (same class as remove_sequential_jumps)
+                        elif mn in ("mlog", "mroo"):
+                            cls = "mlog-mroo-fold-unverified"        # no Vm.Alu model of MLOG/MROO
+                        else:
+                            cls = "rejected"
+                        cp_hist[cls] = cp_hist.get(cls, 0) + 1
+                        if cls == "rejected":
+                            rep = {"pkg": d, "pass": p, "function": fn, "index": where, "before": b_op, "after": a_op,
+                                   "enter_near": bt[max(0, where - 6):where + 2], "exit_near": at[max(0, where - 6):where + 2],
+                                   "theorem": "C07_cp_validator_sound does not apply: the rewrite is not justified by Vm.Alu under the re-derived known values"}
+                            if d in differing:
+                                cp_hist["rejected-with-behavioural-difference-reported"] = cp_hist.get("rejected-with-behavioural-difference-reported", 0) + 1
+                            else:
+                                ctx.violation("cp-%s-%s-%d" % (os.path.basename(d), fn, where), rep,
+                                              "constant_propagate in %s/%s rewrote op %d `%s` to `%s`, which the validator cannot justify (VM semantics of the known operands / trap cases)"
+                                              % (os.path.basename(d), fn, where, b_op, a_op), no_input=True)
+                    continue
                 code, where, side = int(r[0]), int(r[1]), int(r[2])
                 p, e, x, d = cases[i]
                 hist.setdefault(p, {}); hist[p][code] = hist[p].get(code, 0) + 1
@@ -242,7 +317,7 @@ def run(ctx):
         "rule": "pass applications distinct by (pass, enter op texts, exit op texts), non-empty functions only; tests compared by (passed, state, receipts without gas/pc/ptr)",
         "disagreements_checked": ntests + len(work),
         "model_vs_real": {p: {("equal" if c == 0 else "code%d" % c): n for c, n in h.items()} for p, h in hist.items()},
-        "side_conditions": side_hist, "samples": samples,
+        "side_conditions": side_hist, "constant_propagate_validator": cp_hist, "samples": samples,
         "explanation": "Proved for all programs: deletion simulation under a decidable side condition; remove_redundant_ops/dce/simplify_cfg are deletions (side condition checked on every real input of the pass); round-driver soundness. "
                        "remove_sequential_jumps and remove_redundant_moves: modelled and compared exactly, preservation not proved. "
                        "constant_propagate and const_indexing_aggregates: only the behavioural on/off comparison.",
